@@ -64,6 +64,8 @@ def func_case(draw, pair):
 def sol_case(draw, pair):
     fam = "Logistic" if pair.startswith("SparseLogistic") else "Quadratic"
     pen = "WeightedL1" if pair.startswith("GroupBCD") else ("L1_plus_L2" if pair.startswith("ElasticNet") else "L1")
+    if pair.startswith("GramCD") and draw(st.booleans()):
+        pen = "WeightedL1"     # an index-dependent penalty: the Gram solver picks coordinates greedily, CD cyclically
     case = draw(P.scalar_case("AndersonCD", fam, pen, sizes=(4, 14, 2, 8), starts=False, degenerate=False))
     case["penalty"]["positive"] = False
     if "weights" in case["penalty"]:
@@ -330,6 +332,32 @@ def check_sol(case):
     if st2 == "exception":
         return result([Viol(dict(sig, kind="exception", exc=type(o2.exc).__name__), f"{pair}: the general configuration raises {type(o2.exc).__name__}: {str(o2.exc)[:160]}")], True, [pair])
     if st2 != "ok":
+        # differential form of "does not solve the same problem": the special configuration removes all of the initial
+        # sub-optimality (converged at 1e-9) while the general one, after a budget of tens of thousands of epochs on a
+        # problem with <= 8 features, keeps more than a hundredth of it (sublinear CD rates give ~1/epochs)
+        if o2.w is not None and np.all(np.isfinite(np.asarray(w2, float))):
+            from .c03 import start_point
+            Fs, Fa, Fb = M.F_of(ref, start_point(ref)), M.F_of(ref, w_ref), M.F_of(ref, np.asarray(w2, float))
+            if np.isfinite(Fs) and np.isfinite(Fb) and Fs - Fa > 1e-6 * (abs(Fs) + abs(Fa)) and Fb - Fa > 1e-2 * (Fs - Fa):
+                return result([Viol(dict(sig, kind="general-stalls"),
+                                    f"{pair}: the general configuration does not converge (objective {Fb!r} after the full budget, start {Fs!r}) "
+                                    f"while the special case converges to {Fa!r}")], True, [pair, "general-not-converged"])
+        # Stagnation at a non-stationary point.  One pass of (greedy or cyclic) coordinate descent over a coordinate
+        # whose optimality violation is v decreases the objective by at least v^2 / (2 L_j); a history (true objective,
+        # C17) that is flat over its last 1000 iterations while the reference-maths violation of the returned point is
+        # thousands of tolerances is a fixed point of the iteration that is not a solution -- no budget argument.
+        if pair.startswith("GramCD") and o2.w is not None and o2.obj is not None and len(o2.obj) >= 2000 \
+                and np.all(np.isfinite(np.asarray(w2, float))):
+            from . import c01
+            v = float(c01.certificate(ref, np.asarray(w2, float), "subdiff")["feat"])
+            Lmax = float(np.max(P.coord_lipschitz(ref)))
+            obj = np.asarray(o2.obj, float)
+            drop = float(obj[-1001] - obj[-1])
+            if v > 1e3 * tol and Lmax > 0 and drop < 1e-2 * v * v / (2 * Lmax):
+                return result([Viol(dict(sig, kind="general-stagnates"),
+                                    f"{pair}: the general configuration stops moving at a point whose optimality violation is {v:.3e} "
+                                    f"(objective change over its last 1000 iterations {drop:.1e}; one coordinate pass must gain >= {v * v / (2 * Lmax):.1e}) "
+                                    f"while the special case converges")], True, [pair, "general-not-converged"])
         return result([], False, [pair, "general-not-converged(inconclusive)"])
     viol += M.compare(ref, w_ref, np.asarray(w2, float), tol, pair, sig, Viol, factor=4. if pair.startswith("FISTA") else 2.)
     return result(viol, bool(np.any(w_ref)), [pair])
